@@ -44,14 +44,132 @@ type c07Tie struct {
 	viol        []string
 	history     []string // last messages, for replays
 
+	// producer check (`ref v`): the delta the real setVersion sent (f.delta, keyed by the superseded version's
+	// id) against the delta the producer model computes from the record of the install (v.install)
+	curID     int64   // id of the version installed last in this session (-1: none)
+	curFiles  []int64 // its tables
+	view      []int64 // the loop's view of it: the sum of the deltas sent so far
+	sentDelta map[int64][2][]int64
+	pendInst  map[int64]*c07Install
+	prodLines int
+	nAbandon  int
+	prodClass map[string]int
+
 	watchVid     int64          // version an iterator pins (-1: none)
 	watchFiles   map[int64]bool // its tables
 	watchDeleted int            // how many of them the delta of that version deletes
 	watchSeen    bool
 }
 
+type c07Install struct {
+	old, new, recAdded, recDeleted []int64
+}
+
 func newC07Tie(c *Ctx, st *stor.Stor) *c07Tie {
-	return &c07Tie{c: c, st: st, live: map[int64]map[int64]bool{}, recoveryDup: map[int64]bool{}, removed: map[int64]int{}, watchVid: -1}
+	return &c07Tie{c: c, st: st, live: map[int64]map[int64]bool{}, recoveryDup: map[int64]bool{}, removed: map[int64]int{}, watchVid: -1,
+		curID: -1, sentDelta: map[int64][2][]int64{}, pendInst: map[int64]*c07Install{}, prodClass: map[string]int{}}
+}
+
+func c07Has(xs []int64, x int64) bool {
+	for _, y := range xs {
+		if y == x {
+			return true
+		}
+	}
+	return false
+}
+
+func c07Nodup(xs []int64) bool {
+	seen := map[int64]bool{}
+	for _, x := range xs {
+		if seen[x] {
+			return false
+		}
+		seen[x] = true
+	}
+	return true
+}
+
+// c07Classify relates the delta REALLY sent to the two versions and to the loop's view (an independent
+// implementation of Driver/RefLoop.lean `producerCheck`); it returns the class and the new view.
+func c07Classify(view, old, new, added, deleted []int64) (string, []int64) {
+	v1 := append(append([]int64{}, view...), added...)
+	for _, d := range deleted {
+		i := -1
+		for j, x := range v1 {
+			if x == d {
+				i = j
+				break
+			}
+		}
+		if i < 0 {
+			return "BAD", append([]int64{}, new...)
+		}
+		v1 = append(v1[:i:i], v1[i+1:]...)
+	}
+	sub := c07Nodup(v1)
+	for _, x := range v1 {
+		if !c07Has(new, x) {
+			sub = false
+		}
+	}
+	if !sub {
+		return "BAD", v1
+	}
+	same := true
+	for _, x := range new {
+		if !c07Has(v1, x) {
+			same = false
+		}
+	}
+	if !same {
+		return "under", v1
+	}
+	exact := c07Nodup(added) && c07Nodup(deleted)
+	for _, d := range deleted {
+		if !c07Has(old, d) {
+			exact = false
+		}
+	}
+	b2i := func(b bool) int {
+		if b {
+			return 1
+		}
+		return 0
+	}
+	for _, f := range append(append(append([]int64{}, old...), new...), added...) {
+		if b2i(c07Has(new, f))+b2i(c07Has(deleted, f)) != b2i(c07Has(old, f))+b2i(c07Has(added, f)) {
+			exact = false
+		}
+	}
+	if exact {
+		return "exact", v1
+	}
+	return "viewexact", v1
+}
+
+// producerLocked emits the `ref v` line of the install that superseded version oldID once both the install
+// and the delta that was sent for it have been seen (the two events come from different goroutines).
+func (t *c07Tie) producerLocked(oldID int64) {
+	in, ok1 := t.pendInst[oldID]
+	d, ok2 := t.sentDelta[oldID]
+	if !ok1 || !ok2 {
+		return
+	}
+	delete(t.pendInst, oldID)
+	delete(t.sentDelta, oldID)
+	cls, view := c07Classify(t.view, in.old, in.new, d[0], d[1])
+	t.view = view
+	op := strings.Join(strings.Fields(fmt.Sprintf("ref v %d %d %s %d %s %d %s %s", oldID, len(in.old), i64s(in.old),
+		len(in.new), i64s(in.new), len(in.recAdded), i64s(in.recAdded), i64s(in.recDeleted))), " ")
+	exp := strings.Join(strings.Fields(fmt.Sprintf("%d %d %s %s %s", oldID, len(d[0]), i64s(d[0]), i64s(d[1]), cls)), " ")
+	t.c.Lean(op, exp)
+	t.prodLines++
+	t.prodClass[cls]++
+	t.c.Res.Count("refloop", "producer-"+cls)
+	if cls == "BAD" {
+		t.violate("producer:delta-not-exact", fmt.Sprintf("the delta sent when version %d was superseded (added %v, deleted %v) does not turn the loop's view into the installed version %v (superseded: %v)", oldID, d[0], d[1], in.new, in.old))
+	}
 }
 
 func i64s(xs []int64) string {
@@ -133,6 +251,28 @@ func (t *c07Tie) onEvent(ev Event) {
 	switch ev.Point {
 	case "v.install":
 		t.installs++
+		v, _ := ev.Args[0].(*leveldb.VerifVersion)
+		if v == nil {
+			break
+		}
+		files := versionFiles(v)
+		if rec, _ := ev.Args[1].(*leveldb.VerifRecord); rec != nil && t.curID >= 0 {
+			in := &c07Install{old: t.curFiles, new: files}
+			for _, a := range rec.Added {
+				in.recAdded = append(in.recAdded, a.Num)
+			}
+			for _, d := range rec.Deleted {
+				in.recDeleted = append(in.recDeleted, d.Num)
+			}
+			t.pendInst[t.curID] = in
+			t.producerLocked(t.curID)
+		}
+		if v.ID == 0 { // newSession
+			t.view = nil
+			t.sentDelta = map[int64][2][]int64{}
+			t.pendInst = map[int64]*c07Install{}
+		}
+		t.curID, t.curFiles = v.ID, files
 	case "f.ref":
 		vid := ev.Args[0].(int64)
 		files := versionFiles(ev.Args[1].(*leveldb.VerifVersion))
@@ -156,6 +296,8 @@ func (t *c07Tie) onEvent(ev Event) {
 		added, _ := ev.Args[1].([]int64)
 		deleted, _ := ev.Args[2].([]int64)
 		t.message(strings.TrimSpace(fmt.Sprintf("ref d %d %d %s %s", vid, len(added), i64s(added), i64s(deleted))))
+		t.sentDelta[vid] = [2][]int64{append([]int64{}, added...), append([]int64{}, deleted...)}
+		t.producerLocked(vid)
 		seen := map[int64]bool{}
 		dup := false
 		for _, a := range added {
@@ -186,6 +328,7 @@ func (t *c07Tie) onEvent(ev Event) {
 		t.c.Res.Count("refloop", "rel")
 	case "f.abandon":
 		t.message(fmt.Sprintf("ref a %d", ev.Args[0].(int64)))
+		t.nAbandon++
 		t.c.Res.Count("refloop", "abandon")
 	case "f.remove":
 		num := ev.Args[0].(int64)
@@ -642,7 +785,7 @@ func c07FileDiff(db *leveldb.DB, st *stor.Stor) (extra, missing []string) {
 }
 
 func runC07(c *Ctx) {
-	c.Res.Rule = "(1) DB programs biased to flushes, compactions, long-held iterators, discarded transactions and reopen (tiny buffers); every message of the real reference loop (f.ref/f.delta/f.rel/f.abandon hook events) is replayed through Model/RefLoop.lean and the tables the loop removes after each message must be the model's; oracles on the implementation: no table of a referenced-and-unreleased version is removed (loop decision and storage.Remove), held iterators are re-walked against their creation-time contents, storage == live tables + journal(s) + manifest at settled points and after reopen; non-trivial = tables were removed by the loop; (2) an iterator created on a just reopened DB (empty buffers, tables on ≥ 2 levels) and not touched, a CompactRange(all) right after so that the next version deletes tables of the pinned one, then ≥ 300 further version installs (more than maxCachedNumber cached version tasks: conversion to full references), tables live at its creation must stay in storage until it is released, the iterator is finally walked forwards and backwards against its creation-time contents, then storage must shrink to the live set, and after delete-all + CompactRange(all) the table bytes must fall below 2 blocks + 512; the loop's counters (VerifFileRefs) are compared with the model at idle points; (3) iterators obtained from a transaction and kept across its Discard (the removal of its tables is deferred to their release) while another transaction commits tables, Puts/CompactRange run or a third transaction is discarded: after every step and after each release all keys are readable (Get and scan = plain map), the held iterator still shows the discarded view, settled storage = live set"
+	c.Res.Rule = "(1) DB programs biased to flushes, compactions, long-held iterators, discarded transactions and reopen (tiny buffers); every message of the real reference loop (f.ref/f.delta/f.rel/f.abandon hook events) is replayed through Model/RefLoop.lean and the tables the loop removes after each message must be the model's; oracles on the implementation: no table of a referenced-and-unreleased version is removed (loop decision and storage.Remove), held iterators are re-walked against their creation-time contents, storage == live tables + journal(s) + manifest at settled points and after reopen; non-trivial = tables were removed by the loop; (2) an iterator created on a just reopened DB (empty buffers, tables on ≥ 2 levels) and not touched, a CompactRange(all) right after so that the next version deletes tables of the pinned one, then ≥ 300 further version installs (more than maxCachedNumber cached version tasks: conversion to full references), tables live at its creation must stay in storage until it is released, the iterator is finally walked forwards and backwards against its creation-time contents, then storage must shrink to the live set, and after delete-all + CompactRange(all) the table bytes must fall below 2 blocks + 512; the loop's counters (VerifFileRefs) are compared with the model at idle points; (3) iterators obtained from a transaction and kept across its Discard (the removal of its tables is deferred to their release) while another transaction commits tables, Puts/CompactRange run or a third transaction is discarded: after every step and after each release all keys are readable (Get and scan = plain map), the held iterator still shows the discarded view, settled storage = live set; (4) manifest writes fail for a while (failed commits: the ids they spawned are abandoned, f.abandon) under a pinned iterator, more versions follow behind the holes, the DB is closed with the iterator still open in half of the runs (the closing version's reference and the current version's release are replayed like every other message), reopen: contents and storage = live set; in all modes every delta the real setVersion sent is compared with the delta the producer model (Model/Session.lean mkDelta) computes from the record of the install, and classified against the two versions (`ref v`: exact / viewexact / under, BAD = violation)"
 	w := DefaultWeights
 	w.Put, w.Del, w.Write = 40, 14, 8
 	w.Compact, w.Settle, w.Tx, w.Iter, w.Snap = 8, 6, 5, 10, 3
@@ -683,6 +826,11 @@ func runC07(c *Ctx) {
 	np := c.Scale(4, 32)
 	for i := 0; i < np && c.TimeLeft() && !c.Hung; i++ {
 		if c07Pinned(c, c.R.Fork(), i) {
+			return
+		}
+	}
+	for i := 0; i < c.Scale(8, 60) && c.TimeLeft() && !c.Hung; i++ {
+		if c07Abandon(c, c.R.Fork(), i) {
 			return
 		}
 	}
